@@ -11,6 +11,7 @@ The main concerns are:
 
 from __future__ import annotations
 
+import bisect
 import re
 
 from flowmark.linewrapping.atomic_patterns import (
@@ -80,6 +81,62 @@ def find_template_tags(text: str) -> list[tuple[int, int]]:
         else:
             spans.append((opener_match.start(), end + len(closer)))
             pos = end + len(closer)
+
+
+_BACKTICK_RUN_RE: re.Pattern[str] = re.compile(r"`+")
+
+
+def find_template_tags_outside_code(text: str) -> list[tuple[int, int]]:
+    """
+    Like `find_template_tags()`, for text that may hold code spans: a tag delimiter inside
+    a code span is code (`` `{% x` ``), and of a tag and a code span that overlap the one
+    that starts first wins, as between any two inline constructs of equal precedence.
+    """
+    if "`" not in text:
+        return find_template_tags(text)
+    # The code spans as the Markdown reader pairs them: a run of backticks is closed by
+    # the next run of the same length.
+    runs = [(m.start(), m.end()) for m in _BACKTICK_RUN_RE.finditer(text)]
+    by_length: dict[int, list[int]] = {}
+    for index, (start, end) in enumerate(runs):
+        by_length.setdefault(end - start, []).append(index)
+    code_spans: list[tuple[int, int]] = []
+    index = 0
+    while index < len(runs):
+        start, end = runs[index]
+        same = by_length[end - start]
+        closing = bisect.bisect_right(same, index)
+        if closing < len(same):
+            code_spans.append((start, runs[same[closing]][1]))
+            index = same[closing] + 1
+        else:
+            index += 1
+
+    spans: list[tuple[int, int]] = []
+    unclosed: set[str] = set()
+    pos = 0
+    nth = 0  # The first code span that ends after `pos`.
+    while True:
+        opener_match = _TAG_OPENER_RE.search(text, pos)
+        if opener_match is None:
+            return spans
+        while nth < len(code_spans) and code_spans[nth][1] <= opener_match.start():
+            nth += 1
+        if nth < len(code_spans) and code_spans[nth][0] < opener_match.start():
+            pos = code_spans[nth][1]  # The opener is inside a code span.
+            continue
+        opener = opener_match.group(0)
+        closer = _TAG_CLOSER[opener]
+        end = -1 if opener in unclosed else text.find(closer, opener_match.end())
+        if end < 0:
+            unclosed.add(opener)
+            pos = opener_match.start() + 1
+        else:
+            spans.append((opener_match.start(), end + len(closer)))
+            pos = end + len(closer)
+            # A code span that starts inside the tag loses to the tag.
+            while nth < len(code_spans) and code_spans[nth][0] < pos:
+                nth += 1
 
 
 # Pattern to match paired tags like {% tag %}{% /tag %} that should stay together.
